@@ -196,6 +196,14 @@ theorem native_roundtrip (j : J) (h : Faithful j = true) : ofLisp (toLisp j) = .
 
 example : Faithful (obj [("a", arr [.int 1, .null, .str "", obj [("b", .bool true)]]), ("c", .flo "1.5")]) = true := by decide
 
+/-- The guard is exact: for a document with unique object keys (every parsed document) the trip
+    through native Lisp gives the same bag if and only if the document is `Faithful`. -/
+theorem native_roundtrip_exact (j : J) (hk : KeysDistinct j = true) :
+    ofLisp (toLisp j) = .ok j ↔ Faithful j = true :=
+  ⟨faithful_of_roundtrip j hk, ofLisp_toLisp j⟩
+
+example : KeysDistinct (obj [("a", arr [.bool false, obj []]), ("b", .null)]) = true := by decide
+
 /-- Outside the guard the documented mapping loses information: Lisp has neither a boolean
     false nor empty-container values, all of them arrive as `nil` and come back as `null`.
     (The harness replays these on the implementation: sweep cells of the native family.) -/
